@@ -179,6 +179,14 @@ class STIXPatternVisitorForSTIX2():
             negated,
         )
 
+    # Visit a parse tree produced by STIXPatternParser#propTestExists.
+    def visitPropTestExists(self, ctx):
+        children = self.visitChildren(ctx)
+        # children: [NOT,] EXISTS, path
+        return self.instantiate(
+            "ExistsComparisonExpression", children[-1], len(children) > 2,
+        )
+
     # Visit a parse tree produced by STIXPatternParser#propTestOrder.
     def visitPropTestOrder(self, ctx):
         children = self.visitChildren(ctx)
